@@ -26,8 +26,9 @@ ASSUMPTIONS = [
     'the monitor makes no claim (verdict 100) when the written description does not determine the outcome: a string '
     'that names different files from different requiring files, requests for one package that disagree about '
     'use_game_loop and thereby change the set of needed packages, package names containing "./" or a leading "/"',
-    'a file that picotool cannot lex + parse on its own is outside C14 (that is C07 / C08); such runs are compared '
-    'with the model but not judged',
+    'a file that picotool cannot lex + parse COMPLETELY on its own (error, or the parser stops before the last '
+    'token, as it silently does after a `return`) is outside C14 (that is C07 / C08); such runs are compared with '
+    'the model but not judged',
 ]
 PARTIAL = ('C14_tokens (significant tokens of the result = header ++ package blocks ++ loader ++ main tokens, package '
            'bodies intact apart from the stripped game-loop functions) is not proved in Coq: it needs the lexer '
@@ -142,6 +143,21 @@ LOOKALIKE = [
 ]
 
 
+def _dialect_chunk(rng):
+    """A block of statements from the parser stack's dialect generator (harness/props/pgen.py), laid out by
+    its layout generator, wrapped in do ... end so that a final return / break stays legal.  ASCII only."""
+    try:
+        from props import pgen
+    except ImportError:
+        import pgen
+    for _ in range(20):
+        p = pgen.generate_program(rng, maxdepth=3, size=rng.randrange(1, 5))
+        src = pgen.layout(p, rng, rng.choice(['random', 'lines', 'spaces']))
+        if all(c in (9, 10) or 32 <= c < 127 for c in src) and b'require' not in src:
+            return b'do\n' + src + b'\nend'
+    return b'do local q=3 end'
+
+
 def _gl_fn(rng, inner):
     name = rng.choice(GL)
     k = rng.randrange(4)
@@ -157,7 +173,7 @@ def _gl_fn(rng, inner):
     return b'function  ' + name + b' ( )\n\t' + body + b'\n end'
 
 
-def _body(rng, reqs, gl_positions, final_newline, ret, v0, gl_reqs=()):
+def _body(rng, reqs, gl_positions, final_newline, ret, v0, gl_reqs=(), dialect=False):
     """reqs: [(name, gl)] calls to place in the body; gl_positions: subset of {'start','middle','end'};
     gl_reqs: calls to place inside a game-loop function."""
     stmts = []
@@ -168,6 +184,9 @@ def _body(rng, reqs, gl_positions, final_newline, ret, v0, gl_reqs=()):
         forms.append(f)
     for _ in range(rng.randrange(0, 4)):
         stmts.insert(rng.randrange(len(stmts) + 1), rng.choice(FILLER))
+    if dialect:
+        stmts.insert(rng.randrange(len(stmts) + 1), _dialect_chunk(rng))
+        forms.append('dialect')
     if rng.random() < 0.25:
         stmts.insert(rng.randrange(len(stmts) + 1), rng.choice(LOOKALIKE))
     inner = [None] * 3
@@ -202,7 +221,8 @@ def _body(rng, reqs, gl_positions, final_newline, ret, v0, gl_reqs=()):
 
 
 NAME_POOL = [b'a', b'b', b'c', b'util', b'lib/util', b'lib/deep/x', b'mod.lua', b'3d', b'sp ace', b'eng/core',
-             b'eng/gfx', b'x_y', b'q"z', b'b\\s', b"it's", b'n-1', b'A']
+             b'eng/gfx', b'x_y', b'q"z', b'b\\s', b"it's", b'n-1', b'A', b'w?y', b'p;q', b'caf\xc3\xa9', b'lib',
+             b'eng']
 
 
 def _cand(pat, name, src):
@@ -261,6 +281,8 @@ def gen_case(rng, tier, ambiguous_ok=False):
         c = _cand(pats[pat_i], name, src)
         if c is None or c in files or c == 'out.p8':
             continue
+        if any(f.startswith(c + '/') or c.startswith(f + '/') for f in files):
+            continue            # a path cannot be a file and a directory
         if name in names:
             continue
         # earlier patterns must not hit an existing file; later code checks again
@@ -331,7 +353,8 @@ def gen_case(rng, tier, ambiguous_ok=False):
                 glr.append((n, None if pol[n] != 'true' else True))
                 feats.add('req-in-gl')
         fn = rng.random() < (0.6 if tier != 'tiny' else 0.5)
-        body, forms = _body(rng, edges[src], pos, fn, rng.random() < 0.4 and not is_main, 0, glr)
+        body, forms = _body(rng, edges[src], pos, fn, rng.random() < 0.4 and not is_main, 0, glr,
+                            dialect=rng.random() < (0.3 if tier == 'thorough' else 0.15))
         if tier == 'thorough' and rng.random() < 0.05:
             body = body.replace(b'\n', b'\r\n')
             feats.add('crlf')
@@ -429,6 +452,10 @@ def corpus_cases():
     yield _mk({'main.lua': b'x=require("zz")\n'}, tag='missing')
     yield _mk({'main.lua': b'x=require("a")\ny=require("a.lua")\n', 'a.lua': b'return 1\n'}, tag='two-names-one-file')
     yield _mk({'main.lua': b'x=require("a")\n', 'a.lua': b''}, tag='empty-package')
+    yield _mk({'main.lua': b'a=require("lib")\nb=require("lib/x")\n', 'lib.lua': b'return 1\n', 'lib/x.lua': b'return 2\n'},
+              tag='directory-and-file')
+    yield _mk({'main.lua': b'a=require("caf\xc3\xa9")\nx\x8b=1\n', 'caf\xc3\xa9.lua': b'\x80y=2\nreturn \x80y\n'}, tag='high-bytes')
+    yield _mk({'main.lua': b'a=require("\x80")\n', '\x80.lua': b'return 2\n'}, tag='name-not-utf8')
     yield _mk({'src/main.lua': b'x=require("u")\n', 'shared/u.lua': b'function _init() end\nreturn 1'}, main='src/main.lua',
               arg=SB + '/shared/?.lua;?', tag='abs-path')
 
@@ -443,9 +470,12 @@ def _subst(s, sb):
 
 
 def _code_of_p8(data):
+    """The __lua__ section as P8SCII bytes (the .p8 text is the UTF-8 of P8SCII's Unicode rendering; for
+    ASCII the conversion is the identity; the bijection is property C15's theorem)."""
+    from pico8.lua import lua
     i = data.index(b'__lua__\n') + 8
     j = data.rindex(b'__gfx__\n')
-    return data[i:j]
+    return lua.unicode_to_p8scii(data[i:j].decode('utf-8'))
 
 
 def run_impl(case):
@@ -507,7 +537,13 @@ def run_impl(case):
                     items.append('%s:%d' % (lib.hx(pth), 1 if gl else 0))
             except Exception as e:  # noqa
                 werr = lib.exc_name(e)
-            alone[rel] = {'err': None, 'items': items, 'werr': werr, 'echo': lib.hx(b''.join(lo.to_lines()))}
+            # did the parser consume the whole file?  (it stops silently after a `return`; such a file is
+            # not a Lua chunk, and C14 says nothing about it)
+            from pico8.lua import lexer as lx
+            rest = lo.tokens[lo._parser._pos:]
+            complete = all(isinstance(t, (lx.TokSpace, lx.TokNewline, lx.TokComment)) for t in rest)
+            alone[rel] = {'err': None, 'items': items, 'werr': werr, 'echo': lib.hx(b''.join(lo.to_lines())),
+                          'complete': complete}
         obs['alone'] = alone
     finally:
         util._error_stream = old_stream
@@ -572,7 +608,7 @@ def in_domain(case, obs):
     for rel, al in obs['alone'].items():
         if rel == 'unused.lua':
             continue
-        if al['err'] is not None:
+        if al['err'] is not None or not al.get('complete', True):
             return False
     return True
 
@@ -718,6 +754,7 @@ def run_cases(cases, ctx):
             spans.append((len(reqs), len(reqs) + len(r)))
             reqs.extend(r)
         ans = lib.run_driver_parallel(ctx['model_exe'], reqs)
+        spans_model, ans_model = spans, ans
         for k, (c, o, (a, b)) in enumerate(zip(cases, obs, spans)):
             d = compare(c, o, ans[a:b])
             if d is not None:
@@ -782,6 +819,11 @@ def run_cases(cases, ctx):
                                'expected': 'verdict 0'})
         if len(raw) > len(violations):
             hist['monitor:violations-not-shrunk (same classes)'] = len(raw) - len(violations)
+    if ctx.get('tier') == 'thorough' and ctx.get('model_exe'):
+        d = coq_shard(cases, obs, model_codes, spans_model, ans_model)
+        if d:
+            disagreements.append({'case': None, 'summary': 'in-Coq evaluation shard', 'difference': d})
+        hist['coq-shard-cases'] = SHARD
     keys = set()
     for c, o in zip(cases, obs):
         k = nontrivial_key(c, o)
@@ -795,6 +837,57 @@ def run_cases(cases, ctx):
     return {'evaluations': len(cases), 'nontrivial': len(keys), 'rule': RULE, 'samples': samples,
             'disagreements': disagreements, 'violations': violations, 'histogram': hist,
             'impl_seconds': round(t_impl, 2)}
+
+
+SHARD = 24
+
+
+def _zl(b):
+    return '[' + '; '.join(str(x) for x in b) + ']'
+
+
+def coq_shard(cases, obs, model_codes, spans, ans):
+    """Thorough tier: evaluate run_build INSIDE Coq (vm_compute) on a shard of the cases and require the
+    result the extracted OCaml runner gave (cross-check of extraction and of the OCaml glue)."""
+    import subprocess
+    picked = [k for k, c in enumerate(cases) if c['npk'] >= 1 and not obs[k].get('timeout')][:SHARD]
+    if not picked:
+        return None
+    out = ['From PV Require Import Base.Prelude Model.FilesInst Model.ReqEmbed Model.ReqEmbedInst.\n']
+    for j, k in enumerate(picked):
+        c, o = cases[k], obs[k]
+        sb = o['sb']
+        a = ans[spans[k][0]].split(' ')
+        fs = '[' + '; '.join('(%s, %s)' % (_zl(os.path.normpath(os.path.join(sb, rel)).encode()), _zl(lib.unhx(h)))
+                            for rel, h in sorted(c['files'].items())) + ']'
+
+        def opt(x):
+            return 'None' if x is None else 'Some %s' % _zl(_subst(x, sb).encode())
+        if a[0] == 'OK':
+            names = [] if a[2] == '~' else [lib.unhx(x) for x in a[2].split(',')]
+            exp = 'Ok (%s, [%s])' % (_zl(lib.unhx(a[1])), '; '.join(_zl(n) for n in names))
+        elif a[0] == 'ERR':
+            exp = 'Err %s' % a[1]
+        else:
+            return 'runner answer unreadable: ' + ' '.join(a)[:100]
+        out.append('Example shard_%d : run_build %s %s (effective_lua_path_now (%s) (%s)) %s %s = %s.\n'
+                   'Proof. vm_compute. reflexivity. Qed.\n' % (
+                       j, _zl(sb.encode()), fs, opt(c['arg']), opt(c['env']), _zl(c['main'].encode()),
+                       _zl(lib.unhx(c['files'][c['main']])), exp))
+    d = os.path.join(lib.ROCQ, 'cases')
+    os.makedirs(d, exist_ok=True)
+    p = os.path.join(d, 'cases_C14.v')
+    with open(p, 'w') as fh:
+        fh.write(''.join(out))
+    try:
+        r = subprocess.run(['timeout', '600', 'coqc', '-Q', 'theories', 'PV', 'cases/cases_C14.v'], cwd=lib.ROCQ,
+                           capture_output=True, text=True, timeout=630)
+    except subprocess.TimeoutExpired:
+        return 'in-Coq shard timed out'
+    if r.returncode != 0:
+        e = lib.first_coq_error(r.stdout + r.stderr + '\n\n')
+        return 'in-Coq evaluation of run_build differs from the extracted runner: %s' % (e or (r.stderr[-300:]))
+    return None
 
 
 def search(ctx, budget):
